@@ -97,6 +97,7 @@ def run(ctx):
     wunits = set(re.findall(r"(NANOS|MICROS|MILLIS)=", src(ft)))
     ctx.ob('R1.2', 'converted_types._logical_to_time_dtype:covers-units-the-writer-emits', wunits <= units and len(wunits) == 3,
            'writer emits %s, reader knows %s' % (sorted(wunits), sorted(units)), ct_mod.loc(lt))
+    r12_units(ctx, 'R1.2')
 
     # R1.3
     enc_tbl = wr.assigns.get('encode')
@@ -282,3 +283,71 @@ def r11(ctx):
         ctx.note('R1.1 note: %s (outside the property\'s dtype list) is written as %s and read back as %s' % (
             d, pt, _np_name(simple.get(pt))))
 
+
+
+UNIT_OF_BRANCH = {'ns': 'NANOS', 'us': 'MICROS', None: 'MILLIS'}
+CONVERTED_OF_UNIT = {'NANOS': None, 'MICROS': 'TIMESTAMP_MICROS', 'MILLIS': 'TIMESTAMP_MILLIS'}
+
+
+def r12_units(ctx, rule):
+    """find_type: in every arm of the datetime branch the logical-type unit, the converted type and the
+    resolution the arm is selected for agree (a reader that prefers the logical type and one that only knows
+    converted types must scale the same stored integers the same way)"""
+    wr = ctx.repo['writer']
+    ft = wr.func('find_type')
+    arms = 0
+
+    def blocks(stmts):
+        yield stmts
+        for st in stmts:
+            for fld in ('body', 'orelse', 'finalbody'):
+                sub = getattr(st, fld, None)
+                if isinstance(sub, list) and sub and not isinstance(st, (ast.FunctionDef, ast.ClassDef)):
+                    yield from blocks(sub)
+
+    # map block -> selecting test (for `if "ns" in dtype.str` chains)
+    sel = {}
+    for n in ast.walk(ft):
+        if isinstance(n, ast.If):
+            m = re.match(r"'(\w+)' in dtype\.str$", norm(n.test))
+            if m:
+                sel[id(n.body)] = m.group(1)
+                if n.orelse and not (len(n.orelse) == 1 and isinstance(n.orelse[0], ast.If)):
+                    sel[id(n.orelse)] = None
+    for blk in blocks(ft.body):
+        lts = [st for st in blk if isinstance(st, ast.Assign) and norm(st.targets[0]) == 'logical_type'
+               and not (isinstance(st.value, ast.Constant) and st.value.value is None)]
+        for lt in lts:
+            units = set(re.findall(r"(NANOS|MICROS|MILLIS)=", src(lt)))
+            kinds = set(re.findall(r"\b(TIMESTAMP|TIME)=", src(lt)))
+            if len(units) != 1:
+                ctx.ob(rule, 'writer.find_type:logical-type-arm-names-one-unit', False, norm(lt)[:80], wr.loc(lt))
+                continue
+            unit = units.pop()
+            arms += 1
+            conv = None
+            found = False
+            for st in blk:
+                if isinstance(st, ast.Assign):
+                    tg, vl = st.targets[0], st.value
+                    if isinstance(tg, ast.Name) and tg.id == 'converted_type':
+                        found, conv = True, vl
+                    elif isinstance(tg, ast.Tuple) and isinstance(vl, ast.Tuple):
+                        for a, b in zip(tg.elts, vl.elts):
+                            if isinstance(a, ast.Name) and a.id == 'converted_type':
+                                found, conv = True, b
+            cname = None
+            if found and not (isinstance(conv, ast.Constant) and conv.value is None):
+                cname = (dotted(conv) or norm(conv)).split('.')[-1]
+            want = CONVERTED_OF_UNIT[unit]
+            if 'TIME' in kinds and 'TIMESTAMP' not in kinds and want:
+                want = want.replace('TIMESTAMP', 'TIME')
+            ctx.ob(rule, 'writer.find_type:logical-unit-%s-agrees-with-converted-type' % unit, found and cname == want,
+                   'arm stores logical unit %s with converted type %s (expected %s): readers that use the logical type and '
+                   'readers that use the converted type must scale the same integers alike' % (unit, cname, want), wr.loc(lt))
+            if id(blk) in sel:
+                ctx.ob(rule, 'writer.find_type:logical-unit-%s-agrees-with-selected-resolution' % unit,
+                       UNIT_OF_BRANCH.get(sel[id(blk)]) == unit,
+                       'arm selected for resolution %r stores unit %s; the integers written keep the column\'s own resolution'
+                       % (sel[id(blk)] or 'coarser than us', unit), wr.loc(lt))
+    ctx.floor(rule, 'find_type arms with a logical time unit', arms, 3)
